@@ -108,14 +108,41 @@ func (r *Decoder) Next() bool {
 
 	QUAD_START:
 
-		subject, subjectRange, err := r.captureSubjectOrGraphValue(grammar.R_subject)
-		if err != nil {
-			if errors.Is(err, io.EOF) {
-				r.currentQuad = rdf.Quad{}
+		// the input may only end cleanly in front of a statement
+		for {
+			r0, err := r.buf.NextRune()
+			if err != nil {
+				if errors.Is(err, io.EOF) {
+					r.currentQuad = rdf.Quad{}
 
-				return nil
+					return nil
+				}
+
+				return grammar.R_nquadsDoc.Err(r.newOffsetError(err, cursorio.DecodedRunes{}, cursorio.DecodedRunes{}))
 			}
 
+			if r0.Rune == '#' {
+				err = r.drainLine(cursorio.DecodedRuneList{r0})
+				if err != nil {
+					if errors.Is(err, io.EOF) {
+						r.currentQuad = rdf.Quad{}
+
+						return nil
+					}
+
+					return grammar.R_nquadsDoc.Err(r.newOffsetError(err, cursorio.DecodedRunes{}, cursorio.DecodedRunes{}))
+				}
+			} else if unicode.IsSpace(r0.Rune) {
+				r.commit(r0.AsDecodedRunes())
+			} else {
+				r.buf.BacktrackRunes(r0)
+
+				break
+			}
+		}
+
+		subject, subjectRange, err := r.captureSubjectOrGraphValue(grammar.R_subject)
+		if err != nil {
 			return grammar.R_statement.Err(err)
 		}
 
